@@ -117,8 +117,15 @@ void harness(void)
 
 	sym_load();
 	/* --- the rule */
+#if defined INTER
+	/* INTERVAL is a per-obligation constant: a symbolic divisor in the period
+	 * arithmetic (x % inter) costs a full divider circuit per use */
+	ASSUME(in.inter == INTER);
+	R.inter = INTER, rr.inter = INTER;
+#else
 	ASSUME(in.inter >= 1 && in.inter <= 4);
 	R.inter = (int)in.inter, rr.inter = (unsigned)in.inter;
+#endif
 #define LIST(N, src, dstn, dstv, lo, hi, nonzero, distinct_stmt) \
 	for (unsigned i_ = 0; i_ < N; i_++) { \
 		ASSUME(in.src[i_] >= (lo) && in.src[i_] <= (hi) && (!(nonzero) || in.src[i_] != 0)); \
@@ -130,9 +137,17 @@ void harness(void)
 	LIST(NDOM, dom, ndom, dom, -31, 31, 1, 0)
 	LIST(NDOY, doy, ndoy, doy, -366, 366, 1, 0)
 	LIST(NWK, wk, nwk, wk, 2, 51, 0, 0)	/* interior weeks; boundary weeks are a separate obligation */
+#if defined SAFETY
+	LIST(NH, bh, nH, H, 0, 24, 0, 0)
+#else
 	LIST(NH, bh, nH, H, 0, 23, 0, 0)
+#endif
 	LIST(NM, bm, nM, M, 0, 59, 0, 0)
+#if defined SAFETY
+	LIST(NS, bs, nS, S, 0, 60, 0, 0)
+#else
 	LIST(NS, bs, nS, S, 0, 59, 0, 0)
+#endif
 	for (unsigned i = 0; i < NDOW; i++) {
 		ASSUME(in.dww[i] >= 1 && in.dww[i] <= 7);
 #if defined DOW_ORD
@@ -154,13 +169,63 @@ void harness(void)
 	for (unsigned i = 0; i < NWK; i++) rr.wk = ass_bi63(rr.wk, (int)in.wk[i]);
 	for (unsigned i = 0; i < NDOW; i++) ass_bi447(&rr.dow, pack_cd(CD((int)in.dwn[i], (echs_wday_t)in.dww[i])));
 	for (unsigned i = 0; i < NH; i++) rr.H = ass_bui31(rr.H, (unsigned)in.bh[i]);
+#if defined ALLHOURS
+	for (unsigned i = 0; i <= 24U; i++) rr.H = ass_bui31(rr.H, i);	/* BYHOUR=0,1,...,24 is accepted by the parser */
+#endif
+#if defined ALLSECONDS
+	for (unsigned i = 0; i <= 60U; i++) rr.S = ass_bui63(rr.S, i);	/* BYSECOND=0,...,60 is accepted by the parser */
+#endif
 	for (unsigned i = 0; i < NM; i++) rr.M = ass_bui63(rr.M, (unsigned)in.bm[i]);
 	for (unsigned i = 0; i < NS; i++) rr.S = ass_bui63(rr.S, (unsigned)in.bs[i]);
 
 	/* --- DTSTART, synchronised with the rule (RFC 5545: otherwise undefined) */
 	ASSUME(small(in.y, in.m, in.d, in.H, in.M, in.S));
+#if defined YMIN
+	ASSUME(in.y >= YMIN);
+#endif
+#if defined DMIN
+	ASSUME(in.m == 12 && in.d >= DMIN);
+#endif
 	const struct orc_dt_s D = mkdt(in.y, in.m, in.d, in.H, in.M, in.S);
 	ASSUME(orc_valid_dt(D));
+#if defined SAFETY || defined EMPTY
+	/* C09: the accepted language, not the sensible one: DTSTART need not match
+	 * the rule; the caller is refill(): the whole cache is asked for */
+	for (unsigned j = 0; j < GRP_CCH_OFF; j++) tgt[j] = to_inst(D);
+	{
+# if defined EMPTY
+		/* rule classes with an empty recurrence set, see plan */
+		EMPTY;
+# endif
+		size_t r_;
+# if FREQ == 1
+		r_ = rrul_fill_yly(tgt, GRP_CCH_OFF, &rr);
+# elif FREQ == 2
+		r_ = rrul_fill_mly(tgt, GRP_CCH_OFF, &rr);
+# elif FREQ == 3
+		r_ = rrul_fill_wly(tgt, GRP_CCH_OFF, &rr);
+# elif FREQ == 4
+		r_ = rrul_fill_dly(tgt, GRP_CCH_OFF, &rr);
+# elif FREQ == 5
+		r_ = rrul_fill_Hly(tgt, GRP_CCH_OFF, &rr);
+# elif FREQ == 6
+		r_ = rrul_fill_Mly(tgt, GRP_CCH_OFF, &rr);
+# else
+		r_ = rrul_fill_Sly(tgt, GRP_CCH_OFF, &rr);
+# endif
+		CHECK(r_ <= GRP_CCH_OFF, "the filler never reports more occurrences than the cache holds");
+# if defined EMPTY
+		CHECK(r_ == 0U, "an empty recurrence set ends the stream");
+# endif
+		for (unsigned j = 0; j < GRP_CCH_OFF; j++) {
+			if (j + 1U < r_) {
+				CHECK(echs_instant_lt_p(tgt[j], tgt[j + 1U]), "occurrences strictly increase");
+			}
+		}
+		WITNESS_POINT();
+		return;
+	}
+#endif
 	ASSUME(orc_member(&R, D, D));
 
 	/* --- COUNT / UNTIL */
